@@ -107,12 +107,12 @@ func (f *filler) fillValue(t types.Type, old Value, depth int) Value {
 				return old
 			}
 			w, _, fl := basicWidth(u)
-			v := ex.fresh(kn, w)
 			if !fl && me != f.focus {
-				// small class: 1..100 (one decimal length class, non-zero)
-				ex.assume(tc.And(tc.Cmp(OUle, tc.Const(w, 1), v), tc.Cmp(OUle, v, tc.Const(w, 100))), "")
+				// small class: 1..100 (one decimal length class, non-zero); the range is
+				// carried by the variable, so comparisons against it fold without a query
+				return ex.freshRanged(kn, w, 1, 100)
 			}
-			return v
+			return ex.fresh(kn, w)
 		}
 		return old
 	case *types.Struct:
